@@ -167,7 +167,7 @@ PROPS["C05"] = [
     for k in ("gt", "eq")
 ] + [
     H("filter", "c05_select_arr_" + k, tiers="t", funcs=_C05F, symbolic="3 elements (any i64), constant c in I-JSON", shape="array of 3, predicate @ %s c" % k, est=300, timeout=1500)
-    for k in ("lt", "ne", "lte")
+    for k in ("lt", "ne")
 ] + [
     H("filter", "c05_select_obj_lt", tiers="t", funcs=_C05F, symbolic="2 member values, constant", shape="object of 2, predicate @ < c", est=300, timeout=1500),
     H("filter", "c05_abs_query_filter", funcs=_C05F + ["query::test::Test::process (AbsQuery)", "State::shift_to_root"], symbolic="two root elements, constant c",
